@@ -808,6 +808,10 @@ func worker(h *NtfnsHandler) {
 						// TODO: mark status failed
 						fin = true
 					}
+					if err == ErrTaskAbort {
+						// stopping: the import resumes from the wallet status at restart
+						continue
+					}
 				}
 				if !fin {
 					h.taskChan.PushImport(task.walletId)
@@ -846,7 +850,9 @@ func (h *NtfnsHandler) asyncImport(walletId string) (finish bool, err error) {
 		relatedHashes = append(relatedHashes, ma.ScriptAddress())
 	}
 
-	h.suspend(false, "[asyncImport] run", logging.LogFormat{"walletId": walletId})
+	if !h.suspend(false, "[asyncImport] run", logging.LogFormat{"walletId": walletId}) {
+		return false, ErrTaskAbort
+	}
 	defer func() {
 		h.resume(false, "[asyncImport] stop", logging.LogFormat{"walletId": walletId, "finish": finish})
 	}()
@@ -997,7 +1003,9 @@ func (h *NtfnsHandler) asyncRemove(walletId string) error {
 		return nil
 	}
 
-	h.suspend(true, "[asyncRemove-1] deleting balance, address, staking/binding histories", logging.LogFormat{"walletId": walletId})
+	if !h.suspend(true, "[asyncRemove-1] deleting balance, address, staking/binding histories", logging.LogFormat{"walletId": walletId}) {
+		return ErrTaskAbort
+	}
 	err = mwdb.Update(h.walletMgr.db, func(wtx mwdb.DBTransaction) error {
 		err := h.walletMgr.utxoStore.RemoveUnspentByWalletId(wtx, walletId)
 		if err != nil {
@@ -1028,7 +1036,9 @@ func (h *NtfnsHandler) asyncRemove(walletId string) error {
 		case <-h.quit:
 			return ErrTaskAbort
 		default:
-			h.suspend(true, "[asyncRemove-2] deleting credits, keystore", logging.LogFormat{"walletId": walletId})
+			if !h.suspend(true, "[asyncRemove-2] deleting credits, keystore", logging.LogFormat{"walletId": walletId}) {
+				return ErrTaskAbort
+			}
 			finish := false
 			var removedTx []*wire.Hash
 			err := mwdb.Update(h.walletMgr.db, func(wtx mwdb.DBTransaction) (err error) {
@@ -1230,11 +1240,18 @@ func (h *NtfnsHandler) OnTransactionReceived(tx *wire.MsgTx) error {
 	return nil
 }
 
-func (h *NtfnsHandler) suspend(log bool, msg string, fields logging.LogFormat) {
-	h.sigSuspend <- struct{}{}
+// suspend parks the handler goroutine. It returns false, without parking it, when the
+// handler is stopping: after quit is closed nobody receives from sigSuspend any more.
+func (h *NtfnsHandler) suspend(log bool, msg string, fields logging.LogFormat) bool {
+	select {
+	case h.sigSuspend <- struct{}{}:
+	case <-h.quit:
+		return false
+	}
 	if log {
 		logging.VPrint(logging.INFO, msg, fields)
 	}
+	return true
 }
 
 func (h *NtfnsHandler) resume(log bool, msg string, fields logging.LogFormat) {
